@@ -797,10 +797,23 @@ fn c19(args: &Args, report: &Arc<Mutex<Report>>, wd: &Watchdog) {
                 }
                 r.set("conversions", "Instant::new");
             }
-            // SystemTime -> Instant (at or after the epoch)
+            // SystemTime -> Instant (at or after the epoch; before the epoch must be rejected)
             6 => {
                 let s = u64_edge(&mut rng) >> rng.range(0, 34);
                 let ns = nanos_edge(&mut rng) % 1_000_000_000;
+                if rng.chance(1, 5) && (s, ns) != (0, 0) {
+                    if let Some(before) = SystemTime::UNIX_EPOCH.checked_sub(StdDuration::new(s >> 8, ns)) {
+                        if before < SystemTime::UNIX_EPOCH {
+                            match attempt(|| Ok(crux_time::Instant::from(before))) {
+                                Conv::Value(v) => bad(&mut r, "SystemTime->Instant", "negative-value-normalised", format!("-{}.{ns:09}", s >> 8), format!("{:?}", inst_parts(&v))),
+                                Conv::Rejected(_) => r.count("explicit_rejections", 1),
+                            }
+                            r.set("conversions", "SystemTime->Instant");
+                            r.nontrivial(vcommon::hash_mix(rng.state()[0], 600));
+                            continue;
+                        }
+                    }
+                }
                 let Some(st) = SystemTime::UNIX_EPOCH.checked_add(StdDuration::new(s, ns)) else {
                     continue;
                 };
